@@ -83,6 +83,8 @@ def gen(streams, tier, i):
         if hr.random() < 0.5:
             ops.append({"op": "standalone_takes_item", "i": hr.randrange(8), "j": hr.randrange(8),
                         "how": hr.choice(["append", "prepend"])})
+        if hr.random() < 0.3:
+            ops.append({"op": "add_set_of_foreign_lines", "id": "zu%d" % hr.randrange(9)})
     return {"cfg": {"version": doc["version"], "order": mode, "dropped": len(drop), "p_bad": p_bad,
                     "vlevel": vlevel}, "ops": ops}
 
